@@ -22,8 +22,10 @@ import (
 	"go/parser"
 	"go/token"
 	"os"
+	"path/filepath"
 	"strings"
 
+	"honnef.co/go/tools/unused"
 	"verif/harness/internal/c17pkg"
 )
 
@@ -37,6 +39,63 @@ type Job struct {
 	Files    []File `json:"files"`    // in the order they are handed to the type checker and the analyzer
 	PkgPath  string `json:"pkgpath"`  // import path to type-check as
 	Register bool   `json:"register"` // make the type-checked package importable by later jobs under PkgPath
+	Facts    bool   `json:"facts"`    // also print the struct table and the embedded fields (rule 6.5)
+
+	// graph-level merge: the variants of one package (plain, with in-package tests, external test
+	// package) and the orders in which to merge their graphs with the real SerializedGraph.Merge
+	Variants []VariantSpec `json:"variants,omitempty"`
+	Orders   [][]int       `json:"orders,omitempty"`
+}
+
+type VariantSpec struct {
+	Tag      string `json:"tag"`
+	PkgPath  string `json:"pkgpath"`
+	Files    []File `json:"files"`
+	Register bool   `json:"register"`
+}
+
+// VOut is one variant analysed alone: the raw []unused.Node of the real unused.Graph and the
+// verdicts of the real unused.Analyzer.
+type VOut struct {
+	Tag      string   `json:"tag"`
+	Err      string   `json:"err,omitempty"`
+	TypeErrs []string `json:"type_errs,omitempty"`
+	N        int      `json:"n"`
+	Nodes    []Node   `json:"nodes,omitempty"` // nodes 1..N-1
+	Uses     string   `json:"uses,omitempty"`
+	Owns     string   `json:"owns,omitempty"`
+	IDsOK    bool     `json:"ids_ok"` // node i carries id i
+	Used     []string `json:"used"`   // keys of Result.Used / Unused / Quiet of the real analyzer on this variant
+	Unused   []string `json:"unused"`
+	Quiet    []string `json:"quiet"`
+}
+
+// MOut is the real merge of the variants in one order.
+type MOut struct {
+	Order  []int  `json:"order"`
+	Err    string `json:"err,omitempty"`
+	N      int    `json:"n"`
+	Nodes  []Node `json:"nodes,omitempty"` // nodes 1..N-1 (roots of the merged subgraphs have kind "root")
+	Uses   string `json:"uses,omitempty"`
+	Owns   string `json:"owns,omitempty"`
+	Colors string `json:"colors"`
+	ResErr string `json:"res_err,omitempty"`
+}
+
+type Fact struct {
+	St        int    `json:"st"`
+	U         int    `json:"u"`
+	TypeName  string `json:"tn"`
+	TypeBase  string `json:"tb"`
+	TypeLine  int    `json:"tl"`
+	TypeCol   int    `json:"tc"`
+	FieldName string `json:"fn"`
+	FieldBase string `json:"fb"`
+	FieldLine int    `json:"fl"`
+	FieldCol  int    `json:"fc"`
+	Exported  bool   `json:"exported,omitempty"`
+	Host      bool   `json:"host,omitempty"`
+	Methods   bool   `json:"meth,omitempty"`
 }
 
 type Node struct {
@@ -46,6 +105,8 @@ type Node struct {
 	Base string `json:"b"`
 	Line int    `json:"l"`
 	Col  int    `json:"c"`
+	Path string `json:"p,omitempty"` // object path ("" = none); only in merge jobs
+	Pos  string `json:"q,omitempty"` // full position key ("" = no column); only in merge jobs
 }
 
 type Out struct {
@@ -58,6 +119,12 @@ type Out struct {
 	Colors   string   `json:"colors"`          // U/Q/X for nodes 1..N-1 as coloured by the real code
 	Nodes    []Node   `json:"nodes,omitempty"` // nodes 1..N-1
 	DotVsRes string   `json:"dot_vs_result,omitempty"`
+
+	Structs []string `json:"structs,omitempty"` // rule 6.5: struct table
+	Facts   []Fact   `json:"facts,omitempty"`   // rule 6.5: embedded fields of struct declarations
+
+	Variants []VOut `json:"variants,omitempty"`
+	Merges   []MOut `json:"merges,omitempty"`
 }
 
 // SplitOut cuts a source file into a header (package clause and imports) and one chunk of
@@ -192,7 +259,7 @@ func fill(o *Out, g *c17pkg.Graph) error {
 		if err != nil {
 			return err
 		}
-		o.Nodes = append(o.Nodes, Node{k, n, d, b, l, c})
+		o.Nodes = append(o.Nodes, Node{Kind: k, Name: n, Dir: d, Base: b, Line: l, Col: c})
 	}
 	return nil
 }
@@ -204,6 +271,10 @@ func runJob(job *Job, imp *c17pkg.Importer) (o *Out) {
 			o.Err = fmt.Sprintf("harness panic: %v", r)
 		}
 	}()
+	if len(job.Variants) > 0 {
+		runVMerge(job, imp, o)
+		return o
+	}
 	var srcs []c17pkg.Source
 	for _, f := range job.Files {
 		s := c17pkg.Source{Path: f.Name}
@@ -237,5 +308,162 @@ func runJob(job *Job, imp *c17pkg.Importer) (o *Out) {
 	if err := fill(o, &run.Graph); err != nil {
 		o.Err = err.Error()
 	}
+	if job.Facts {
+		table, qs := c17pkg.Rule65Facts(l)
+		o.Structs = table
+		for _, q := range qs {
+			o.Facts = append(o.Facts, Fact{q.St, q.U, q.TypeName, filepath.Base(q.TypePos.Filename), q.TypePos.Line, q.TypePos.Column,
+				q.FieldName, filepath.Base(q.FieldPos.Filename), q.FieldPos.Line, q.FieldPos.Column, q.Exported, q.HostLayout, q.Methods})
+		}
+	}
 	return o
+}
+
+func objKey(obj unused.Object) string {
+	return fmt.Sprintf("%s %s %s:%d:%d", obj.Kind, obj.Name, filepath.Base(obj.Position.Filename), obj.Position.Line, obj.Position.Column)
+}
+
+func rawEdges(raw []c17pkg.RawNode, owns bool) string {
+	var es [][2]int
+	for i, n := range raw {
+		l := n.Uses
+		if owns {
+			l = n.Owns
+		}
+		for _, b := range l {
+			es = append(es, [2]int{i, int(b)})
+		}
+	}
+	return c17pkg.EdgeString(es)
+}
+
+// runVMerge: every variant through the real analyzer (verdicts) and the real unused.Graph
+// (raw nodes); then the requested merge orders through the real SerializedGraph.Merge.
+func runVMerge(job *Job, imp *c17pkg.Importer, o *Out) {
+	var graphs [][]unused.Node
+	var registered []string
+	defer func() {
+		for _, p := range registered {
+			delete(imp.Registered, p)
+		}
+	}()
+	okAll := true
+	for _, vs := range job.Variants {
+		vo := VOut{Tag: vs.Tag}
+		var srcs []c17pkg.Source
+		for _, f := range vs.Files {
+			s := c17pkg.Source{Path: f.Name}
+			if f.Src != "" {
+				s.Src = []byte(f.Src)
+			}
+			srcs = append(srcs, s)
+		}
+		l, errs := c17pkg.Load(srcs, vs.PkgPath, imp)
+		if len(errs) > 0 {
+			for i, e := range errs {
+				if i < 8 {
+					vo.TypeErrs = append(vo.TypeErrs, e.Error())
+				}
+			}
+			o.Variants = append(o.Variants, vo)
+			graphs = append(graphs, nil)
+			okAll = false
+			continue
+		}
+		if vs.Register {
+			imp.Registered[vs.PkgPath] = l.Pkg
+			registered = append(registered, vs.PkgPath)
+		}
+		run, err := c17pkg.RunUnused(l)
+		if err != nil {
+			vo.Err = err.Error()
+			o.Variants = append(o.Variants, vo)
+			graphs = append(graphs, nil)
+			okAll = false
+			continue
+		}
+		for _, x := range run.Result.Used {
+			vo.Used = append(vo.Used, objKey(x))
+		}
+		for _, x := range run.Result.Unused {
+			vo.Unused = append(vo.Unused, objKey(x))
+		}
+		for _, x := range run.Result.Quiet {
+			vo.Quiet = append(vo.Quiet, objKey(x))
+		}
+		nodes, err := c17pkg.RealGraph(l)
+		if err != nil {
+			vo.Err = err.Error()
+			o.Variants = append(o.Variants, vo)
+			graphs = append(graphs, nil)
+			okAll = false
+			continue
+		}
+		raw := c17pkg.Snapshot(nodes)
+		vo.N = len(raw)
+		vo.IDsOK = true
+		for i, n := range raw {
+			if n.ID != uint64(i) {
+				vo.IDsOK = false
+			}
+			if i == 0 {
+				continue
+			}
+			ob := n.Obj
+			vo.Nodes = append(vo.Nodes, Node{Kind: ob.Kind, Name: ob.Name, Dir: filepath.Dir(ob.Position.Filename), Base: filepath.Base(ob.Position.Filename),
+				Line: ob.Position.Line, Col: ob.Position.Column, Path: c17pkg.PathKey(&ob), Pos: c17pkg.PosKey(&ob)})
+		}
+		vo.Uses = rawEdges(raw, false)
+		vo.Owns = rawEdges(raw, true)
+		o.Variants = append(o.Variants, vo)
+		graphs = append(graphs, nodes)
+	}
+	if !okAll {
+		return
+	}
+	for _, ord := range job.Orders {
+		mo := MOut{Order: ord}
+		var list [][]unused.Node
+		bad := false
+		for _, i := range ord {
+			if i < 0 || i >= len(graphs) {
+				bad = true
+				break
+			}
+			list = append(list, graphs[i])
+		}
+		if bad {
+			mo.Err = "order refers to a missing variant"
+			o.Merges = append(o.Merges, mo)
+			continue
+		}
+		m, err := c17pkg.MergeReal(list)
+		if err != nil {
+			mo.Err = err.Error()
+			o.Merges = append(o.Merges, mo)
+			continue
+		}
+		mo.N = m.Graph.N
+		mo.Uses = c17pkg.EdgeString(m.Graph.Uses)
+		mo.Owns = c17pkg.EdgeString(m.Graph.Owns)
+		if m.Graph.N > 1 {
+			mo.Colors = string(m.Graph.Colors[1:])
+		}
+		mo.ResErr = m.ResErr
+		for i := 1; i < m.Graph.N; i++ {
+			nd := Node{Path: m.Paths[i], Pos: m.PosKey[i]}
+			if m.Paths[i] == "" && m.PosKey[i] == "" {
+				nd.Kind = "root"
+			} else {
+				k, n, d, b, l, c, err := c17pkg.NodeDesc(m.Graph.Labels[i])
+				if err != nil {
+					mo.Err = err.Error()
+					break
+				}
+				nd.Kind, nd.Name, nd.Dir, nd.Base, nd.Line, nd.Col = k, n, d, b, l, c
+			}
+			mo.Nodes = append(mo.Nodes, nd)
+		}
+		o.Merges = append(o.Merges, mo)
+	}
 }
